@@ -1,5 +1,5 @@
 (** C16 — tactics of the generated case files that use lemmas of PeatclsmSpec. *)
-From Coq Require Import Reals List ZArith Lra Lia.
+From Coq Require Import Reals List ZArith QArith Qreals Lra Lia.
 From Coquelicot Require Import Coquelicot.
 From Interval Require Import Tactic.
 From Spowtd Require Import Model.Util Model.Transm Model.TransmEval Model.Peatclsm Model.PeatclsmEval
@@ -52,3 +52,7 @@ Ltac phi_step H0 x0 x1 :=
       lra
     end
   end.
+
+(** Table entries (rationals written as Q literals) against the certified bounds. *)
+Ltac q_unfold PhiQ ThQ epsQ etaQ MQ :=
+  cbv beta iota delta [PhiQ ThQ epsQ etaQ MQ Q2R Qnum Qden].
